@@ -1219,7 +1219,13 @@ func (e *Exec) uniqueValue(t *Term) (int64, bool) {
 	if e.cfg.Concrete != nil {
 		return 0, false
 	}
-	r := e.sol.Prove(e.tb, e.slicePC(t), []*Term{t}, e.cfg.FeasTimeout)
+	// cheap: an equality with a constant already in the path condition
+	for _, p := range e.pc {
+		if p.op == OpEq && p.args[0].IsConst() && p.args[1] == t {
+			return int64(p.args[0].val), true
+		}
+	}
+	r := e.sol.Model(e.tb, e.slicePC(t), []*Term{t}, e.cfg.FeasTimeout)
 	if r.Status != "sat" {
 		return 0, false
 	}
